@@ -148,8 +148,8 @@ class Call:
         self.term = term
         f = term["fn"]
         self.ind = bool(f.get("ind"))
-        self.defn = f.get("def")
-        self.callee = f.get("res") or f.get("def")
+        self.defn = f.get("def") or ""
+        self.callee = f.get("res") or f.get("def") or "<indirect>"     # a call through a fn pointer / `impl Fn` value has no callee path
         self.gargs = f.get("gargs", [])
         self.rgargs = f.get("rgargs", self.gargs)
         self.trait = f.get("trait")
